@@ -78,10 +78,21 @@ async def shown(p, raw, hi):
     return p.value, p.min_value, p.max_value
 
 
+def held_value(raw, disp, n, via_device):
+    """the value held before the write-back: different from `raw`; on the Device.set route the raw number that
+    the displayed value looks like (20 displayed for raw 40 -> hold raw 20), so that a route comparing the
+    requested displayed value with the held raw value must still transmit"""
+    if via_device and isinstance(disp, (int, float)) and not isinstance(disp, bool):
+        held = int(disp)
+        if 0 <= held < n and held != raw:
+            return held
+    return (raw + 1) % n
+
+
 async def write_back(w, p, raw, disp, n, kind, size, via_device=None):
     """hold a value different from `raw` with full bounds, then set(displayed); returns the
     raw value of the queued set request and the result"""
-    other = (raw + 1) % n
+    other = held_value(raw, disp, n, via_device is not None)
     p.update(ParameterValues(value=other, min_value=0, max_value=n - 1))
     if via_device is not None:
         dev, name = via_device
@@ -180,7 +191,7 @@ async def run_async(ctx, res):
             model_disp = answers[ai]
             ai += 1
             v, vmin, vmax = await shown(p, raw, n)
-            via = (dev, row["name"]) if (k % 37 == 0) else None
+            via = (dev, row["name"]) if (k % 37 == 0 or k % 10 == 3) else None
             r, sent, after = await write_back(w, p, raw, v, n, kind, row["size"], via)
             rec = dict(what=what, table=tname, row=row["name"], raw=raw, conv=cw, shown=pd.canon_val(v),
                        shown_min=pd.canon_val(vmin), shown_max=pd.canon_val(vmax), result=list(r), sent=sent, after=after,
@@ -408,8 +419,13 @@ def replay(ctx):
                     cur, lo, hi = inp.get("triple") or [(raw + 1) % n, 0, n - 1]
                     p.update(ParameterValues(value=raw, min_value=lo, max_value=hi))
                     disp = p.value
+                    via = inp.get("via") == "device.set" and not inp.get("triple")
+                    if via:
+                        cur = held_value(raw, disp, n, True)
                     p.update(ParameterValues(value=cur, min_value=lo, max_value=hi))
-                    r, frames = await pd.run_set(w, lambda: p.set(disp, retries=1, timeout=0.01))
+                    dev = w.device(label)
+                    r, frames = await pd.run_set(w, (lambda: dev.set(row["name"], disp, retries=1)) if via
+                                                 else (lambda: p.set(disp, retries=1, timeout=0.01)))
                     sent = request_raw(kind, frames, row["size"])
                     cw = pd.conv_words(kind, row)
                     md, ms = driver_batch([f"display {cw} {raw}", f"c06set {cw} {cur} {lo} {hi} {pd.enc_val(disp)} 1"])
